@@ -8,6 +8,7 @@ package main
 // prints one JSON document with per-entry results.
 
 import (
+	"runtime/pprof"
 	"encoding/json"
 	"flag"
 	"fmt"
@@ -133,9 +134,17 @@ func cmdExec(args []string) {
 	verbose := fs.Bool("v", false, "verbose")
 	relax := fs.Bool("relaxtrunc", false, "over-approximate float->int truncation by a real in (x-1,x] (integrality dropped)")
 	patience := fs.Int("patience", 3000, "ms the incremental primary solver gets before the query goes to the one-shot portfolio")
+	budget := fs.Int("budget", 600, "wall-clock budget per entry in seconds (0 = none); exceeding it truncates the exploration")
+	freeSched := fs.Bool("freesched", false, "free choice of the next thread at blocking points (default: delay-bounded round-robin)")
 	knownS := fs.String("known", "", "comma-separated ids of open known findings (vKnown)")
 	seed := fs.Int("seed", 0, "solver random seed")
+	cpuprof := fs.String("cpuprofile", "", "write CPU profile")
 	fs.Parse(args)
+	if *cpuprof != "" {
+		f, _ := os.Create(*cpuprof)
+		pprof.StartCPUProfile(f)
+		defer pprof.StopCPUProfile()
+	}
 
 	t0 := time.Now()
 	var hfiles []string
@@ -160,7 +169,7 @@ func cmdExec(args []string) {
 			os.Exit(3)
 		}
 		cfg := Config{Harness: entry, MaxPaths: *maxPaths, UnwindLimit: *unwind, Preempt: *preempt, StepLimit: *steps,
-			Workers: *workers, SolverBin: *solver, Fallback: splitNE(*fallback), QueryMs: *queryMs, MaxViol: *maxViol, KeepScripts: *cross != "", Witnesses: *witnesses, RelaxTrunc: *relax, PatienceMs: *patience, Known: splitNE(*knownS), Seed: *seed, Verbose: *verbose}
+			Workers: *workers, SolverBin: *solver, Fallback: splitNE(*fallback), QueryMs: *queryMs, MaxViol: *maxViol, KeepScripts: *cross != "", Witnesses: *witnesses, RelaxTrunc: *relax, PatienceMs: *patience, BudgetS: *budget, FreeSched: *freeSched, Known: splitNE(*knownS), Seed: *seed, Verbose: *verbose}
 		eng := &Engine{prog: prog, cfg: cfg, res: NewResults(), entry: fn}
 		t1 := time.Now()
 		eng.Run()
